@@ -221,12 +221,17 @@ def run_driver(binpath, plans, tag, extra_args=(), timeout=900, env=None, max_de
     return traces, deaths
 
 
-def run_driver_parallel(binpath, plans, tag, k=4, **kw):
-    """run_driver over k child processes (plans dealt round-robin); deaths and traces are merged."""
+def run_driver_parallel(binpath, plans, tag, k=4, chunk=0, **kw):
+    """run_driver over k child processes (plans dealt round-robin); deaths and traces are merged.
+    chunk > 0: at most that many plans per child process (more processes one after the other on the k workers) - for drivers
+    whose code under test leaks goroutines per plan."""
     if k <= 1 or len(plans) < 2 * k:
         return run_driver(binpath, plans, tag, **kw)
     import concurrent.futures as cf
-    chunks = [plans[i::k] for i in range(k)]
+    n = k
+    if chunk and len(plans) > k * chunk:
+        n = (len(plans) + chunk - 1) // chunk
+    chunks = [plans[i::n] for i in range(n)]
     traces, deaths, errs = {}, [], []
     with cf.ThreadPoolExecutor(max_workers=k) as ex:
         futs = [ex.submit(run_driver, binpath, ch, "%s-w%d" % (tag, i), **kw) for i, ch in enumerate(chunks) if ch]
